@@ -5,6 +5,7 @@ One check = regenerate Gen from /repo, build oracle / driver / the property's th
 axioms, run the correspondence + oracle pass of the property, triage, write evidence.
 """
 import argparse
+import multiprocessing
 import importlib
 import json
 import os
@@ -119,6 +120,17 @@ def main():
     if a.setup:
         return setup()
     seed = int(os.environ.get("VERIF_SEED", "0") or 0)
+    # a check must terminate: a worker that died or a run that never ends is an infrastructure failure (exit 2), not a verdict
+    import signal
+    limit = int(os.environ.get("VERIF_TIMEOUT", "0") or 0) or (14400 if a.tier == "thorough" else 3600)
+
+    def on_alarm(signum, frame):
+        print("INFRA-FAILURE %s: the check did not finish within %d s" % (a.prop, limit), flush=True)
+        for child in multiprocessing.active_children():
+            child.terminate()
+        os._exit(2)
+    signal.signal(signal.SIGALRM, on_alarm)
+    signal.alarm(limit)
     try:
         return run_check(a.prop, a.tier, seed, a.replay)
     except Infra as e:
